@@ -523,12 +523,15 @@ func (o c04HOp) String() string {
 	if o.Kind == "reg" {
 		return fmt.Sprintf("Map(scope%d,%s)", o.Scope, c04Names[o.Type])
 	}
+	if o.Kind == "parent" {
+		return fmt.Sprintf("SetParent(scope%d,%s)", o.Scope, []string{"scope0", "scope1", "scope2", "nil", "wrapped(scope1)"}[o.Type])
+	}
 	return fmt.Sprintf("%s(%s)", o.Kind, c04Names[o.Type])
 }
 
 func c04HistoryOps() []c04HOp {
 	var ops []c04HOp
-	for sc := 0; sc < 2; sc++ {
+	for sc := 0; sc < 3; sc++ {
 		for _, ti := range []int{1, 2, 5, 0} {
 			ops = append(ops, c04HOp{Kind: "reg", Scope: sc, Type: ti})
 		}
@@ -537,24 +540,52 @@ func c04HistoryOps() []c04HOp {
 		ops = append(ops, c04HOp{Kind: "value", Type: ti})
 	}
 	ops = append(ops, c04HOp{Kind: "invoke", Type: 5}, c04HOp{Kind: "invoke", Type: 6})
+	// SetParent: scope, and the new parent in Type (0..2 = that injector, 3 = none, 4 = injector 1
+	// behind a wrapper type that is not the plain injector)
+	ops = append(ops, c04HOp{Kind: "parent", Scope: 0, Type: 1}, c04HOp{Kind: "parent", Scope: 0, Type: 2}, c04HOp{Kind: "parent", Scope: 0, Type: 3},
+		c04HOp{Kind: "parent", Scope: 1, Type: 2}, c04HOp{Kind: "parent", Scope: 0, Type: 4})
 	return ops
 }
 
-// c04RunHistory executes ops on two nested live injectors, comparing every resolution with the model.
+// c04Wrapped is an Injector that is not the package's own type.
+type c04Wrapped struct{ inject.Injector }
+
+// c04RunHistory executes ops on three live injectors (initially 0 -> 1, 2 detached), comparing every
+// resolution with the model.
 func c04RunHistory(ops []c04HOp) (bad string, at int) {
 	reg := &c04Reg{chTags: map[uintptr]string{}}
-	injs := []inject.Injector{inject.New(), inject.New()}
+	injs := []inject.Injector{inject.New(), inject.New(), inject.New()}
 	injs[0].SetParent(injs[1])
-	scopes := []c04Scope{{}, {}}
+	scopes := []c04Scope{{}, {}, {}}
+	parent := []int{1, -1, -1}
+	chain := func() []c04Scope {
+		var out []c04Scope
+		for s, n := 0, 0; s >= 0 && n < 4; s, n = parent[s], n+1 {
+			out = append(out, scopes[s])
+		}
+		return out
+	}
 	for n, op := range ops {
 		switch op.Kind {
 		case "reg":
 			v := reg.mkValue(op.Type, fmt.Sprintf("s%d#%d", op.Scope, n), n)
 			c04Register(injs[op.Scope], op.Type, v, "Map")
 			scopes[op.Scope][c04Types[op.Type]] = v
+		case "parent":
+			switch op.Type {
+			case 3:
+				injs[op.Scope].SetParent(nil)
+				parent[op.Scope] = -1
+			case 4:
+				injs[op.Scope].SetParent(c04Wrapped{injs[1]})
+				parent[op.Scope] = 1
+			default:
+				injs[op.Scope].SetParent(injs[op.Type])
+				parent[op.Scope] = op.Type
+			}
 		case "value":
 			got := injs[0].Value(c04Types[op.Type])
-			allowed := c04Resolve(scopes, c04Types[op.Type])
+			allowed := c04Resolve(chain(), c04Types[op.Type])
 			if !c04Allowed(reg, allowed, got) {
 				return fmt.Sprintf("step %d: Value(%s) = %s, resolution at this point allows %s", n+1, c04Names[op.Type], reg.id(got), c04Ids(reg, allowed)), n
 			}
@@ -562,7 +593,7 @@ func c04RunHistory(ops []c04HOp) (bad string, at int) {
 			rec := &c04Call{}
 			plain, _ := c04Funcs([]int{op.Type}, rec)
 			_, err := injs[0].Invoke(plain)
-			allowed := c04Resolve(scopes, c04Types[op.Type])
+			allowed := c04Resolve(chain(), c04Types[op.Type])
 			if len(allowed) == 0 {
 				if err == nil || rec.n != 0 {
 					return fmt.Sprintf("step %d: Invoke(func(%s)) must fail without running the body (err=%v, ran %d)", n+1, c04Names[op.Type], err, rec.n), n
@@ -583,9 +614,9 @@ func c04RunHistory(ops []c04HOp) (bad string, at int) {
 
 func c04Histories(r *core.Run) {
 	ops := c04HistoryOps()
-	depth := 5
+	depth := 4
 	if r.Thorough() {
-		depth = 6
+		depth = 5
 	}
 	r.Bounds["history_depth"] = depth
 	r.Bounds["history_ops"] = len(ops)
@@ -604,7 +635,7 @@ func c04Histories(r *core.Run) {
 			for i := depth - 1; i >= 0; i-- {
 				hist[i] = ops[x%len(ops)]
 				x /= len(ops)
-				if hist[i].Kind == "reg" {
+				if hist[i].Kind == "reg" || hist[i].Kind == "parent" {
 					regs++
 				} else {
 					resolves++
